@@ -436,6 +436,21 @@ def sweep_c18(tier, seed):
             if bad:
                 viol.append({"name": "C18.native.magnitude", "input": {"normal": v}, "observed": bad[:3]})
                 break
+    # one direction Vector reused and changed in place between calls (the basis depends on its CURRENT components)
+    for k in range(6 if tier == "quick" else 60):
+        cases += 1
+        v = rng.normal(size=3) + 0.1
+        d = Vector(*v.tolist(), unit="m")
+        VectorBasis(n=d)
+        d.norm  # noqa: B018
+        hx, hz = d.x, d.z
+        hx += hx
+        hz *= -0.5
+        now = [float(d.x.values), float(d.y.values), float(d.z.values)]
+        bad = basis_errors(np, VectorBasis(n=d), want_n=now, right_handed=True)
+        if bad:
+            viol.append({"name": "C18.native.direction_reused", "input": {"normal": v.tolist(), "then": now}, "observed": bad[:3]})
+            break
     for s in range(10 if tier == "quick" else 200):
         cases += 1
         bad = top_side_case(seed * 31 + s)
